@@ -9,6 +9,9 @@
 (* references and all other text are therefore copied unchanged, and a value  *)
 (* is never scanned again.  The scanner is also given as a step machine       *)
 (* (ScanStep) so that "what has been emitted so far" is state.                *)
+(* SetVars is the part of the environment that inputs can name; whatever else *)
+(* the process environment holds plays no part - the replay's environment has *)
+(* bystander variables whose value or name is not even text (not UTF-8).      *)
 (***************************************************************************)
 EXTENDS Integers, Sequences, TLC
 CONSTANTS Tokens, MaxTok,
